@@ -3,7 +3,7 @@
 P=$1; V=$2; shift 2
 CHECKS=${@:-$P}
 W=/tmp/seed_$P
-D=/verif/seeded/$P-$V
+D=/verif/seeded/$P-$V${SEEDTAG:+-$SEEDTAG}
 cd $W || exit 2
 git checkout -q -- . 
 r0=$(PYTHONPATH=. timeout 300 /venv/bin/python _seed/${V}_demo.py >/dev/null 2>&1; echo $?)
@@ -32,5 +32,5 @@ notes=open('/tmp/seed_%s/_seed/NOTES.md'%P).read()
 json.dump(dict(property=P, variant=V, breaks=P, needs='see notes (sub-agent description)', notes=notes[:6000],
    verified=dict(demo_rc_unpatched=int(r0), demo_rc_patched=int(r1), suite_with_patch=t,
                  ran='git apply in scratch worktree; pytest bitcoin/tests; demo.py; git checkout; then applied to /repo, ran ./check, reverted'),
-   checks=res.strip()), open('/verif/seeded/%s-%s/meta.json'%(P,V),'w'), indent=1)
+   checks=res.strip()), open('/verif/seeded/%s-%s%s/meta.json'%(P,V,("-"+__import__("os").environ["SEEDTAG"]) if __import__("os").environ.get("SEEDTAG") else ""),'w'), indent=1)
 PY
